@@ -21,7 +21,7 @@ def programs(rng, n):
             lines.append("R sync %d" % nth)
             for w in range(1, nw + 1):
                 for _ in range(rng.choice([1, 1, 2])):
-                    lines.append("P %d wait %d" % (w, rng.randrange(2)))
+                    lines.append("P %d wait %d" % (w, rng.choice([0, 0, 0, 1, 1, 2, 255, -1, -2147483647])))
             nwaits = sum(1 for l in lines if " wait " in l)
             if nwaits == nw and rng.random() < 0.4:
                 # unwait_all is issued once all waiters are queued (the driver waits for that)
@@ -54,7 +54,7 @@ def programs(rng, n):
             lines += ["P %d pop" % nth] * total
         else:              # mixed: wake + queue + lock
             lines.append("R sync 4")
-            lines += ["P 1 wait %d" % rng.randrange(2), "P 1 push 101", "P 2 lock", "P 2 unlock", "P 2 wait 0", "P 3 push 301",
+            lines += ["P 1 wait %d" % rng.choice([0, 1, -1]), "P 1 push 101", "P 2 lock", "P 2 unlock", "P 2 wait 0", "P 3 push 301",
                       "P 3 unwait_one 9", "P 3 unwait_one 9", "P 4 pop", "P 4 lock", "P 4 lock", "P 4 unlock", "P 4 unlock", "P 4 pop"]
         out.append(lines)
     return out
